@@ -40,6 +40,10 @@ USER_MAPS = [
     [["xmlns", "urn:a"]],
     [["a b", "urn:a"]],
     [["1p", "urn:a"]],
+    [["\u00aa", "urn:a"]],                       # a letter for str.isalpha, not an XML NameStartChar
+    [["\u00e9", "urn:a"]],                       # é: a NCName
+    [[None, XMLNS]],
+    [["p", "http://www.w3.org/2000/xmlns/"]],
     [["p", XMLNS]],
     [["xml", XMLNS]],
     [[None, "urn:a&b"]],
